@@ -1055,6 +1055,15 @@ def _sh_kill(pid, sig):
 
 def _sh_signal(sig, h):
     s = CUR
+    if s is not None and is_main() and sig not in (signal.SIGCHLD, signal.SIGINT, signal.SIGTERM):
+        # another signal (a COND file that does `signal.signal(SIGPIPE, SIG_DFL)`, ...): recorded for the simulated
+        # process only - the dispositions of the simulator's own process are not the program's to change
+        old = s.other_handlers.get(int(sig))
+        if old is None:
+            old = REAL.getsignal(sig)       # what a fresh Python process has (SIGPIPE: SIG_IGN, ...)
+        s.other_handlers[int(sig)] = h
+        s.emit("sigreg-other", int(sig))
+        return old
     if s is None or not is_main() or sig not in (signal.SIGCHLD, signal.SIGINT, signal.SIGTERM):
         return REAL.signal(sig, h)
     old = s.handlers.get(sig, signal.SIG_DFL)
@@ -1120,6 +1129,9 @@ def _sh_set_wakeup_fd(fd, *, warn_on_full_buffer=True):
 
 def _sh_getsignal(sig):
     s = CUR
+    if s is not None and is_main() and sig not in (signal.SIGCHLD, signal.SIGINT, signal.SIGTERM):
+        h_ = s.other_handlers.get(int(sig))
+        return h_ if h_ is not None else REAL.getsignal(sig)
     if s is None or sig not in (signal.SIGCHLD, signal.SIGINT, signal.SIGTERM):
         return REAL.getsignal(sig)
     return s.handlers.get(sig, signal.SIG_DFL)
@@ -1529,6 +1541,7 @@ class Sim:
         self.stall_cps = []
         self.blocked = set()
         self.blocked_pending = set()
+        self.other_handlers = {}
 
     def count(self, key, k=1):
         self.stats[key] = self.stats.get(key, 0) + k
